@@ -2,9 +2,10 @@ SPECIFICATION Spec
 CONSTANTS
   CheckTrailer = TRUE
   UpdateWatchdog = FALSE
+  WaitOrigins = FALSE
   Bound = 2
   NOrigs = {0, 1, 2, 3}
   Intfs = {"keep", "none", "direct", "recursive"}
   Gen = FALSE
 INVARIANTS TypeOK InvSuccessSound InvFailureReported InvNoRedundant InvUnpinIdempotent
-  InvStallGivesUpAdd InvUpdateOnlyIfRecursive InvSourceKept
+  InvStallGivesUpAdd InvOriginsBestEffort InvUpdateOnlyIfRecursive InvSourceKept
